@@ -259,3 +259,29 @@ package gtab
 //@     free_invariant forall c uint32 :: (c / 268435456) % 16 == 1 ==> chunkPos[c] <= 65535
 //@   loop 8
 //@     invariant (isnil(buf) || fresh(buf)) && chunkPos != nil && subTableCount < 16384
+
+// GSUB subtable encoders, checked as encoders: no panic on any subtable with a
+// valid coverage table, the buffer is filled exactly up to the size computed
+// from the parts (declared size == emitted size: the final copy of the
+// coverage table fits exactly), and every 16-bit offset and count stored must
+// be lossless.
+//@ func (l *Gsub1_1) encode() (res []byte)   props: C08
+//@   encoder
+//@   requires l != nil && len(l.Cov) <= 65535
+//@   ensures fresh(res) && len(res) >= 10 && res[1] == 1 && be16(res, 2) == 6 && be16(res, 4) == l.Delta
+//@   may_panic
+//@   modifies nothing
+
+//@ func (l *Gsub1_2) encode() (res []byte)   props: C08
+//@   encoder
+//@   requires l != nil && coverage.covValid(l.Cov) && len(l.Cov) <= 65535
+//@   ensures fresh(res) && len(res) >= 10 + 2*len(l.SubstituteGlyphIDs) && res[1] == 2 && be16(res, 4) == len(l.SubstituteGlyphIDs)
+//@   ensures forall i int :: 0 <= i && i < len(l.SubstituteGlyphIDs) ==> be16(res, 6 + 2*i) == l.SubstituteGlyphIDs[i]
+//@   may_panic
+//@   opt assume_make=1
+//@   modifies nothing
+//@   loop 0
+//@     invariant 0 <= i && i <= n && len(buf) >= 10 + 2*n && fresh(buf) && n == len(l.SubstituteGlyphIDs) && covOffs == 6 + 2*n
+//@     invariant buf[1] == 2 && be16(buf, 4) == n && be16(buf, 2) == covOffs
+//@     invariant forall k int :: 0 <= k && k < i ==> be16(buf, 6 + 2*k) == l.SubstituteGlyphIDs[k]
+//@     decreases n - i
